@@ -169,6 +169,20 @@ fn clone_case<T: MaybeDynSized<Metadata = usize> + ?Sized>(ctx: &mut Ctx, key: &
     }
 }
 
+fn dispatch(ctx: &mut Ctx, hk: usize, content: &[u8], split: &[usize]) {
+    let none = |_: &[u8]| None;
+    match hk {
+        0 => boxed_case::<DynSizedStructure<TagHeader>>(ctx, "TagHeader", 8, 4, || TagHeader::new(TagType::Custom(0x1337), 0), content, split, &none),
+        1 => boxed_case::<DummyDstTag>(ctx, "DummyTestHeader", 8, 4, || DummyTestHeader::new(42, 0), content, split, &none),
+        2 => boxed_case::<DynSizedStructure<HeaderTagHeader>>(ctx, "HeaderTagHeader", 8, 4, || HeaderTagHeader::new(HeaderTagType::Address, HeaderTagFlag::Optional, 0), content, split, &none),
+        3 => boxed_case::<DynSizedStructure<BootInformationHeader>>(ctx, "BootInformationHeader", 8, 0, || unsafe { std::mem::transmute::<[u32; 2], BootInformationHeader>([0, 0]) }, content, split, &none),
+        _ => boxed_case::<DynSizedStructure<Multiboot2BasicHeader>>(ctx, "Multiboot2BasicHeader", 16, 8, || unsafe { std::mem::transmute::<[u32; 4], Multiboot2BasicHeader>([0xE852_50D6, 4, 0, 0]) }, content, split, &|b: &[u8]| {
+            let s = rd32(b, 0).wrapping_add(rd32(b, 4)).wrapping_add(rd32(b, 8)).wrapping_add(rd32(b, 12));
+            if s != 0 { Some("checksum does not match the patched length".to_string()) } else { None }
+        }),
+    }
+}
+
 fn run(ctx: &mut Ctx) {
     let nmax = if ctx.quick() { 16 } else { 40 };
     ctx.bound("new_boxed", format!("all splits of a marker content of total length 0..={} into 0..=4 slices (0..=8 slices for contents of up to 5 bytes; empty slices included) x header kinds TagHeader, DummyTestHeader, HeaderTagHeader, BootInformationHeader, Multiboot2BasicHeader (with checksum); every allocator call recorded", nmax));
@@ -227,6 +241,38 @@ fn run(ctx: &mut Ctx) {
                     aliasing_case(ctx, hk, &buf, &parts, &content);
                 });
             }
+        }
+    }
+    // many small slices (a constructor with many scalar fields; running totals crossing 16, 32, 64, 128 bytes)
+    let kmax = if ctx.quick() { 12 } else { 14 };
+    ctx.bound("new_boxed_many_slices", format!("k slices for k in 5..={}: every sequence of lengths over {{7, 8}}; every sequence over {{1, 2, 4, 8}} for k <= {}; uniform runs of k = 1..=40 slices of length 0..=9 and 15..=17; header kinds TagHeader and Multiboot2BasicHeader", kmax, if ctx.quick() { 6 } else { 8 }));
+    {
+        let mut cases: Vec<Vec<usize>> = vec![];
+        for k in 5..=kmax {
+            for code in 0..(1usize << k) {
+                cases.push((0..k).map(|i| 7 + ((code >> i) & 1)).collect());
+            }
+        }
+        for k in 5..=(if ctx.quick() { 6 } else { 8 }) {
+            for code in 0..4usize.pow(k as u32) {
+                cases.push((0..k).map(|i| [1usize, 2, 4, 8][(code / 4usize.pow(i as u32)) % 4]).collect());
+            }
+        }
+        for k in 1..=40usize {
+            for l in (0..=9usize).chain(15..=17) {
+                cases.push(vec![l; k]);
+            }
+        }
+        for (ci, split) in cases.iter().enumerate() {
+            let n: usize = split.iter().sum();
+            let content: Vec<u8> = (0..n).map(|i| marker(i, 65)).collect();
+            let hk = if ci % 2 == 0 { 0 } else { 4 };
+            let describe = || J::obj().set("part", "new_boxed_many_slices").set("header_kind", hk).set("content_len", n).set("split", format!("{:?}", split));
+            ctx.leaf(describe, |ctx| {
+                ctx.state_direct();
+                ctx.nontrivial();
+                dispatch(ctx, hk, &content, split);
+            });
         }
     }
     ctx.bound("new_boxed_large", "contents of 255..257, 1023..1025, 4087, 4088, 4095..4097, 65535..65537 and 2^20 bytes split at every pair of cut points from {0, 1, n/2, n-1, n}, all five header kinds");
